@@ -16,6 +16,7 @@ status.
 import copy
 import inspect
 import itertools
+import os
 import pickle
 
 import numpy as np
@@ -68,6 +69,12 @@ def build_seed(name, A):
         return sf.IndexDate(A['dates'])
     if name == 'IndexHierarchy':
         return sf.IndexHierarchy.from_labels([('a', 1), ('a', 2), ('b', 1)], name='ih')
+    if name == 'IndexHierarchy-depth3':
+        return sf.IndexHierarchy.from_labels([('a', 1, 'x'), ('a', 1, 'y'), ('a', 2, 'x'), ('b', 1, 'x')], name='ih3')
+    if name == 'Series-hier3':
+        return sf.Series(A['i8'], index=sf.IndexHierarchy.from_labels([('a', 1, 'x'), ('a', 2, 'x'), ('b', 1, 'y')]), name='s')
+    if name == 'Frame-hier3-index':
+        return sf.Frame.from_items((('p', A['i8']), ('q', A['f8'])), index=sf.IndexHierarchy.from_labels([('a', 1, 'x'), ('a', 2, 'x'), ('b', 1, 'y')]), name='f')
     if name == 'IndexHierarchy-from-arrays':
         return sf.IndexHierarchy._from_type_blocks(sf.TypeBlocks.from_blocks((A['lab'], A['i8'])))
     if name == 'Series-float':
@@ -157,7 +164,7 @@ GO_SEEDS = {'IndexHierarchy.from_index_items(IndexGO)': _go_index_items, 'Frame.
             'IndexHierarchy(IndexHierarchyGO)': _go_hier, 'FrameGO.rename().to_frame()': _go_frame_rename}
 
 
-SEEDS_QUICK = ['Index', 'IndexDate', 'IndexHierarchy', 'Series-float', 'Series-object', 'SeriesHE', 'Frame-mixed-1d', 'Frame-2d-block', 'FrameHE', 'Frame-zero-rows',
+SEEDS_QUICK = ['Index', 'IndexDate', 'IndexHierarchy', 'IndexHierarchy-depth3', 'Series-hier3', 'Frame-hier3-index', 'Series-float', 'Series-object', 'SeriesHE', 'Frame-mixed-1d', 'Frame-2d-block', 'FrameHE', 'Frame-zero-rows',
                'Series-1030-labels'] + list(GO_SEEDS)
 SEEDS_ALL = SEEDS_QUICK + ['IndexGO->static', 'IndexHierarchy-from-arrays', 'Series-hier', 'Frame-typeblocks', 'Frame-hier-columns', 'Frame-from-records', 'Frame-from-concat']
 DEPTH2_QUICK = {'Series-float', 'Frame-mixed-1d', 'IndexHierarchy'}
@@ -182,10 +189,10 @@ def arg_menu(c, pname, default):
     n = len(c) if hasattr(c, '__len__') else 1
     lab = first_label(c)
     m = {
-        'axis': [0, 1], 'skipna': [True, False], 'ascending': [False], 'count': [1], 'shift': [1], 'ddof': [1], 'size': [2], 'step': [1], 'limit': [1], 'decimals': [1],
+        'axis': [0, 1], 'skipna': [True, False], 'ascending': [False], 'count': [1, -1, -2], 'shift': [1], 'ddof': [1], 'size': [2], 'step': [1], 'limit': [1], 'decimals': [1],
         'fill_value': [0], 'value': [0, c], 'other': [c, 2], 'others': [c], 'func': [lambda *a: a[0]], 'dtype': [float, object], 'dtypes': [object], 'name': ['renamed'],
         'key': [lab, 0], 'label': [lab], 'labels': [[lab]], 'depth_level': [0], 'level': ['L'], 'condition': [np.any], 'lower': [0], 'upper': [1], 'values': [[lab, 0]],
-        'index': [1 if pname == 'index' and isinstance(c, sf.Frame) and False else None, list(range(n)), 1], 'columns': [None, 1, 0], 'container': [sf.Series((1, 2, 3), name='new')],
+        'index': [None, list(range(n)), 1, -1], 'columns': [None, 1, 0, -1], 'container': [sf.Series((1, 2, 3), name='new')],
         'mapping': [{lab: 'zz'}], 'config': [None], 'kind': ['mergesort'], 'side_left': [True], 'exclude_first': [True], 'exclude_last': [False], 'q': [0.5],
         'consolidate_blocks': [True], 'index_constructor': [None], 'names': [('n1', 'n2')], 'column': [first_label(c, 1)], 'index_fields': [first_label(c, 1)],
         'columns_fields': [()], 'data_fields': [()], 'compare_name': [True], 'compare_dtype': [True], 'compare_class': [True], 'window_sized': [True], 'include_index': [True],
@@ -196,6 +203,13 @@ def arg_menu(c, pname, default):
     if pname in m:
         return [v for v in m[pname] if not (v is None and default is inspect.Parameter.empty)] or m[pname]
     return [0, 'a']
+
+
+def _numeric(x):
+    dts = x.dtypes.values.tolist() if isinstance(x, sf.Frame) else [x.dtype] if hasattr(x, 'dtype') else [np.dtype(object)]
+    if isinstance(x, sf.IndexHierarchy):
+        dts = list(x.dtypes.values)
+    return bool(dts) and all(d.kind in 'iuf' for d in dts)
 
 
 def enumerate_ops(c):
@@ -225,7 +239,7 @@ def enumerate_ops(c):
             continue
         params = [p for p in list(sig.parameters.values())[1:] if p.kind in (p.POSITIONAL_OR_KEYWORD, p.KEYWORD_ONLY)]
         required = [p for p in params if p.default is inspect.Parameter.empty]
-        optional_interesting = [p for p in params if p.default is not inspect.Parameter.empty and p.name in ('axis', 'skipna', 'ascending', 'fill_value', 'dtype', 'ddof')]
+        optional_interesting = [p for p in params if p.default is not inspect.Parameter.empty and p.name in ('axis', 'skipna', 'ascending', 'fill_value', 'dtype', 'ddof', 'count', 'index', 'columns', 'depth_level')]
         if not required:
             ops.append((f'call:{name}()', lambda x, name=name: getattr(x, name)()))
             for p in optional_interesting:
@@ -353,7 +367,12 @@ def enumerate_ops(c):
         ]
     # operators, pickle, copies
     ops += [('op:neg', lambda x: -x), ('op:add-self', lambda x: x + x), ('op:eq-self', lambda x: x == x), ('op:mul2', lambda x: x * 2), ('op:radd', lambda x: 1 + x),
-            ('op:invert', lambda x: ~x), ('op:abs', lambda x: abs(x)), ('op:matmul', lambda x: x @ x),
+            ('op:invert', lambda x: ~x), ('op:abs', lambda x: abs(x)), ('op:matmul', lambda x: _numeric(x) and x @ x), ('op:round', lambda x: round(x, 1)), ('op:round0', lambda x: round(x)),
+            ('op:pos', lambda x: +x), ('op:floordiv', lambda x: x // 2), ('op:pow', lambda x: x ** 2), ('op:rsub', lambda x: 1 - x), ('op:lt', lambda x: x < 2),
+            # (matmul only on numeric containers: NumPy's object-dtype matmul corrupts reference counts when an element operation raises, and the process dies later)
+            ('arg:matmul(array)', lambda x: _numeric(x) and x @ W((len(x),) if not isinstance(x, sf.Frame) else (x.shape[1],), 'float64')),
+            ('arg:rmatmul(array)', lambda x: _numeric(x) and W((len(x),) if not isinstance(x, sf.Frame) else (x.shape[0],), 'float64') @ x),
+            ('arg:matmul(2d-array)', lambda x: _numeric(x) and x @ W((len(x), 2) if not isinstance(x, sf.Frame) else (x.shape[1], 2), 'float64')),
             ('pickle', lambda x: ('ROUNDTRIP', pickle.loads(pickle.dumps(x)))), ('deepcopy', lambda x: ('ROUNDTRIP', copy.deepcopy(x))), ('copy', lambda x: ('ROUNDTRIP', copy.copy(x))),
             ('len-iter-contains', lambda x: (len(x), list(itertools.islice(iter(x), 5)), first_label(x) in x)), ('hash-try', lambda x: hash(x)),
             ('setattr-try', lambda x: setattr(x, 'name', 'hacked')), ('setitem-try', lambda x: x.__setitem__(0, 99)), ('delattr-try', lambda x: delattr(x, 'name')),
@@ -552,6 +571,8 @@ def run_case(case, ctx):
             for opname, fn in ops2:
                 ctx.transition()
                 info = dict(seed=seed_name, derived_by=via, derived_class=type(c).__name__, operation=opname)
+                if os.environ.get('C01_TRACE'):
+                    print('TRACE', seed_name, via, opname, flush=True)
                 ARG_ARRAYS.clear()
                 try:
                     r = materialise(fn(c))
